@@ -22,6 +22,17 @@ else:
     sh("git checkout -q --detach && git checkout -q -- . && git clean -fdq tests", cwd=WT)
     sh("git -C /repo rev-parse HEAD | xargs git checkout -q --detach", cwd=WT)
 meta = {"label": label, "property": prop, "verified": {}, "checks": {}}
+history = []
+if os.path.exists(f"{dst}/meta.json"):
+    try:
+        old = json.load(open(f"{dst}/meta.json"))
+        history = old.get("history", [])
+        h = subprocess.run("git -C /verif log -1 --format=%h", shell=True, capture_output=True, text=True).stdout.strip()
+        history.append(f"{old.get('verif_commit', '?')}: caught by {old.get('caught_by') or 'none'}")
+    except Exception:
+        pass
+meta["history"] = history
+meta["verif_commit"] = subprocess.run("git -C /verif log -1 --format=%h", shell=True, capture_output=True, text=True).stdout.strip()
 shutil.copy(os.path.join(dst, "demo.rs"), f"{WT}/tests/seed_demo.rs")
 env = "CARGO_NET_OFFLINE=true"
 rc, o = sh(f"{env} cargo test --offline --features core,json --test seed_demo 2>&1 | tail -5", cwd=WT)
